@@ -9,8 +9,10 @@ import (
 	"sync"
 	"time"
 
+	ethereum "github.com/ethereum/go-ethereum"
 	"github.com/ethereum/go-ethereum/accounts/abi/bind"
 	"github.com/ethereum/go-ethereum/common"
+	"github.com/ethereum/go-ethereum/core/types"
 	"github.com/vipnode/vipnode-contract/go/vipnodepool"
 	"github.com/vipnode/vipnode/v2/pool/store"
 )
@@ -311,6 +313,20 @@ func (u unconfirmedBalance) Error() string {
 	return fmt.Sprintf("balance %d has unconfirmed changes", u.balance)
 }
 
+// knowsTransaction returns true if the node has the transaction, mined or
+// pending. False also means "can't tell" (the backend has no such call, or
+// the node can't be asked).
+func (p *contractPayment) knowsTransaction(hash common.Hash) bool {
+	reader, ok := p.backend.(ethereum.TransactionReader)
+	if !ok {
+		return false
+	}
+	ctx, cancel := context.WithTimeout(context.Background(), 10*time.Second)
+	defer cancel()
+	tx, _, err := reader.TransactionByHash(ctx, hash)
+	return err == nil && tx != nil
+}
+
 // OpSettle replaces the current on-chain balance for account with newBalance
 // and disburses withdrawAmount to the account wallet.
 func (p *contractPayment) OpSettle(account store.Account, paymentAmount *big.Int, newBalance *big.Int) (tx string, err error) {
@@ -321,7 +337,22 @@ func (p *contractPayment) OpSettle(account store.Account, paymentAmount *big.Int
 
 	// TODO: Check balance of transactor/operator before executing transactions.
 	// TODO: p.contract.OpWithdraw occasionally, especially if operator is running low on funds to cover fees.
-	txn, err := p.contract.OpSettle(p.transactOpts, addr, paymentAmount, newBalance)
+	// Keep the transaction as it was signed: if submitting it returns an error,
+	// that does not say whether the node has it.
+	var signed *types.Transaction
+	opts := *p.transactOpts
+	opts.Signer = func(signer types.Signer, from common.Address, tx *types.Transaction) (*types.Transaction, error) {
+		tx, err := p.transactOpts.Signer(signer, from, tx)
+		signed = tx
+		return tx, err
+	}
+	txn, err := p.contract.OpSettle(&opts, addr, paymentAmount, newBalance)
+	if err != nil && signed != nil && p.knowsTransaction(signed.Hash()) {
+		// The answer got lost, not the transaction: it will be mined and pay.
+		// Reporting a failure would have the withdrawal paid a second time.
+		logger.Printf("OpSettle for %q returned %q, but the node has transaction %s", account, err, signed.Hash().Hex())
+		txn, err = signed, nil
+	}
 	if err != nil {
 		return "", err
 	}
